@@ -503,17 +503,31 @@ impl World {
             Op::DeleteContained { kind, id } => match kind.as_str() {
                 "participant" => {
                     let Some(dp) = self.participant(*id) else { return Res::Skipped("no participant") };
-                    unit!(dp.delete_contained_entities().await)
+                    let r = dp.delete_contained_entities().await;
+                    if r.is_ok() {
+                        let mut st = self.st.borrow_mut();
+                        st.readers.values_mut().filter(|x| x.p == *id).for_each(|x| x.deleted = true);
+                        st.writers.values_mut().filter(|x| x.p == *id).for_each(|x| x.deleted = true);
+                    }
+                    unit!(r)
                 }
                 "publisher" => {
                     let x = self.st.borrow().publishers.get(id).cloned();
                     let Some((x, _)) = x else { return Res::Skipped("no publisher") };
-                    unit!(x.delete_contained_entities().await)
+                    let r = x.delete_contained_entities().await;
+                    if r.is_ok() {
+                        self.st.borrow_mut().writers.values_mut().filter(|x| x.publisher == *id).for_each(|x| x.deleted = true);
+                    }
+                    unit!(r)
                 }
                 "subscriber" => {
                     let x = self.st.borrow().subscribers.get(id).cloned();
                     let Some((x, _)) = x else { return Res::Skipped("no subscriber") };
-                    unit!(x.delete_contained_entities().await)
+                    let r = x.delete_contained_entities().await;
+                    if r.is_ok() {
+                        self.st.borrow_mut().readers.values_mut().filter(|x| x.subscriber == *id).for_each(|x| x.deleted = true);
+                    }
+                    unit!(r)
                 }
                 _ => Res::Skipped("bad kind"),
             },
